@@ -8,11 +8,15 @@ sees when its session expires.  This stage does:
 
   * spec/Expiry.tla (+ ExpiryProps, ExpiryMC, cfgs): nodes, leader, clock, timers, the sweep as the
     code does it, raft as a FIFO of committed entries, clients, Config entries, leader changes;
-    OnlyIdleExpire, ActiveNeverExpires, ExpiredSessionGone, FollowersNeverPropose exhaustively,
-    IdleEventuallyExpires under weak fairness (liveness cfg);
+    OnlyIdleExpire, ActiveNeverExpires, SweepsAllIdle, ExpiredSessionGone, FollowersNeverPropose
+    exhaustively, IdleEventuallyExpires under weak fairness (liveness cfg); Restore(n) replaces a
+    follower's server object at run time (Expiry_restore.cfg); Expiry_stale.cfg is the variant in which
+    the sweep keeps the object of process start: it must violate the first three (run once each);
   * harness/expiry: real robustirc binaries (tags verif, built from vlib.REPO), 1 and 3 nodes on
     loopback, SessionExpiration of a few seconds set through the real POST /config, sessions
-    driven through the real HTTP API, the leader stopped or killed; recorded: the replicated log
+    driven through the real HTTP API, the leader stopped or killed, and - scenario restored-leader -
+    a follower that installs a snapshot at RUN TIME (FSM.Restore replaces its server object while
+    its timer loop goes on) and then becomes the leader; recorded: the replicated log
     (read from the nodes' irclog with the tree's own code), the proposer of every entry (hook
     api.applied), every line the long polls delivered, API answers, raft states over time, the
     sweep's own log lines;
@@ -52,16 +56,30 @@ PREDICATES = {
 def scenarios(ctx):
     seed = ctx.seed
     fo = "failover-stop" if seed % 2 else "failover-kill"
-    res = [("mix1", 4000), ("config1", 4000), (fo, 5000)]
+    # restored-leader: an initial follower restores at run time and becomes the leader; restored-exleader: the initial
+    # leader (whose loop has swept as the leader's before) is deposed while stopped, restores, becomes the leader again
+    res = [("mix1", 4000), ("config1", 4000), (fo, 5000), ("restored-leader", 4000), ("restored-exleader", 4000)]
     if not ctx.quick:
         other = "failover-kill" if fo == "failover-stop" else "failover-stop"
-        res += [("mix3", 3000), (other, 6000), ("mix1", 2500), ("config1", 6000)]
+        res += [("mix3", 3000), (other, 6000), ("mix1", 2500), ("config1", 6000), ("restored-leader-long", 3000), ("restored-exleader-long", 5000)]
     return [{"name": n, "exp": e, "seed": seed * 1000 + k, "k": k} for k, (n, e) in enumerate(res)]
 
 
 def build(ctx):
     bindir = ctx.sub("expiry-bin")
-    robust = ctx.go_build(".", os.path.join(bindir, "robustirc"), tags="verif", timeout=600)
+    # raft.Config.TrailingLogs (default 10240: the raft log is never compacted in a short run, so a
+    # follower that was held back would replay the log and raft's InstallSnapshot - FSM.Restore at run
+    # time - would never happen).  One line of main() reads it from the environment, as checks/c05.py
+    # does; only the restored-leader scenario sets the variable, without it the Sscan fails and the
+    # default stays.  Everything else of main() - the timer loop above all - is the tree's code.
+    with open(os.path.join(vlib.REPO, "robustirc.go")) as fh:
+        text = fh.read()
+    old = 'config.MaxAppendEntries = 1024'
+    if text.count(old) != 1:
+        raise vlib.Inconclusive("robustirc.go: the raft configuration is not where the expiry stage expects it")
+    text = text.replace(old, old + '\n\tfmt.Sscan(os.Getenv("VERIF_TRAILING_LOGS"), &config.TrailingLogs)')
+    ov0 = ctx.overlay({"robustirc.go": text})
+    robust = ctx.go_build(".", os.path.join(bindir, "robustirc"), overlay=ov0, tags="verif", timeout=600)
     ov = ctx.harness_overlay(PKG, HARNESS)
     orch = ctx.go_build("./" + PKG, os.path.join(bindir, "verif-expiry"), overlay=ov, tags="verif", timeout=600)
     return robust, orch
@@ -175,8 +193,35 @@ def selftest(ctx, trace_path, aux_path):
     return res
 
 
-MC_QUICK = [("Expiry_two.cfg", 2), ("Expiry_one.cfg", 2), ("Expiry_live.cfg", 3)]
-MC_THOROUGH = [("Expiry_small.cfg", 4), ("Expiry_three.cfg", 4), ("Expiry_two.cfg", 2), ("Expiry_one.cfg", 2), ("Expiry_live.cfg", 3)]
+def selftest_restore(ctx, trace_path, aux_path):
+    """The restore event binds: without it (or with a restore dated after the sweeps) the recording of a restored-leader
+    scenario no longer witnesses 'sweeps of a node after its run-time restore' and the stage refuses to count it."""
+    aux = [json.loads(l) for l in read_lines(aux_path)]
+    if not any(a["ev"] == "restore" for a in aux):
+        return {"skipped": "no restore record"}
+    trace = open(trace_path).read()
+
+    def dump(rs):
+        return "\n".join(json.dumps(r, sort_keys=True, separators=(",", ":")) for r in rs) + "\n"
+    cases = {"the restore record dropped": [a for a in aux if a["ev"] != "restore"],
+             "the restore dated after the end of the recording": [dict(a, t=2 ** 30, t2=2 ** 30) if a["ev"] == "restore" else a for a in aux],
+             "the restore attributed to another node": [dict(a, n=a["n"] % 3 + 1) if a["ev"] == "restore" else a for a in aux]}
+    res = {}
+    for k, (what, recs) in enumerate(cases.items()):
+        try:
+            v = validate(ctx, "selftest-restore", trace, dump(recs), "selftest-restore-%d" % k)
+            wit = [pos for w, pos in v["notes"] if w.startswith("WITNESS ")]
+            res[what] = "rejected (no sweep entry after a run-time restore is witnessed)" if not wit or wit[0] == 0 else "NOT rejected"
+        except vlib.Inconclusive as ex:
+            res[what] = "machinery: %s" % str(ex)[:200]
+    return res
+
+
+MC_QUICK = [("Expiry_two.cfg", 2), ("Expiry_one.cfg", 2), ("Expiry_live.cfg", 3), ("Expiry_restore.cfg", 2)]
+MC_THOROUGH = [("Expiry_small.cfg", 4), ("Expiry_three.cfg", 4), ("Expiry_two.cfg", 2), ("Expiry_one.cfg", 2), ("Expiry_live.cfg", 3),
+               ("Expiry_restore.cfg", 2)]
+# Expiry_stale.cfg: NOT the code - the sweep keeps the server object of process start.  Each of these must be violated.
+STALE_INVARIANTS = ("OnlyIdleExpire", "ActiveNeverExpires", "SweepsAllIdle")
 
 
 def model_check(ctx, cfg, workers, coverage=False):
@@ -184,6 +229,25 @@ def model_check(ctx, cfg, workers, coverage=False):
     r = ctx.tlc("ExpiryMC", cfg=cfg, workers=workers, timeout=1500, deadlock=False, coverage=coverage,
                 name="expirymc-" + cfg.replace(".cfg", "") + ("-cov" if coverage else ""), heap="6g")
     return cfg, r, round(time.time() - t0, 1)
+
+
+def stale_variant(ctx):
+    """Expiry_stale.cfg once per invariant: the design with the stale reference must violate each (a TLC result on a variant
+    of the design; says nothing about the code - it documents why the per-sweep look-up matters)."""
+    with open(os.path.join(vlib.SPEC, "Expiry_stale.cfg")) as fh:
+        text = fh.read()
+    if len(re.findall(r"^INVARIANTS .*$", text, re.M)) != 1:
+        raise vlib.Inconclusive("Expiry_stale.cfg has no single INVARIANTS line")
+    res = []
+    for inv in STALE_INVARIANTS:
+        t0 = time.time()
+        cfg = "Expiry_stale_%s.cfg" % inv
+        r = ctx.tlc("ExpiryMC", cfg=cfg, workers=1, timeout=300, deadlock=False, name="expirymc-stale-" + inv, heap="2g",
+                    files={cfg: re.sub(r"^INVARIANTS .*$", "INVARIANTS " + inv, text, flags=re.M)})
+        steps = re.findall(r"^State \d+: <(\w+)", r.out, re.M)
+        res.append({"invariant": inv, "violated": r.invariant_violated, "counterexample_actions": steps, "distinct": r.distinct,
+                    "wall_s": round(time.time() - t0, 1), "tail": r.out[-1500:]})
+    return res
 
 
 def report(ctx, replay=None):
@@ -199,15 +263,17 @@ def report(ctx, replay=None):
         scs = [s for s in scs if s["name"] == "config1"][:1]
     mcs = [] if (replay or only_selftest) else (MC_QUICK if ctx.quick else MC_THOROUGH)
     ctx.log("expiry stage: %d scenario(s) on real binaries, %d model-checking run(s) alongside" % (len(scs), len(mcs)))
-    # the scenarios mostly wait for sweeps: all at once; at most three TLC processes next to them
+    # the scenarios mostly wait for sweeps: all at once; at most four TLC processes next to them
     with concurrent.futures.ThreadPoolExecutor(max_workers=len(scs) + 1) as ex, \
-            concurrent.futures.ThreadPoolExecutor(max_workers=3) as exm:
+            concurrent.futures.ThreadPoolExecutor(max_workers=4) as exm:
         fs = [ex.submit(run_scenario, ctx, robust, orch, sc) for sc in scs]
         fm = [exm.submit(model_check, ctx, cfg, w) for cfg, w in mcs]
+        fstale = exm.submit(stale_variant, ctx) if mcs else None
         if not ctx.quick and not replay and not only_selftest:
-            fm += [exm.submit(model_check, ctx, cfg, 3, True) for cfg in ("Expiry_two.cfg", "Expiry_one.cfg")]
+            fm += [exm.submit(model_check, ctx, cfg, 3, True) for cfg in ("Expiry_two.cfg", "Expiry_one.cfg", "Expiry_restore.cfg")]
         runs = [f.result() for f in fs]
         mcres = [f.result() for f in fm]
+        stale = fstale.result() if fstale else []
     scen_s = round(time.time() - t0 - build_s, 1)
 
     # ---- the design specification
@@ -227,6 +293,14 @@ def report(ctx, replay=None):
         ctx.add("transitions", r.generated)
         ctx.add("expiry_tlc_runs")
         stage["model_checking"].append({"cfg": cfg, "distinct": r.distinct, "generated": r.generated, "depth": r.depth, "wall_s": wall})
+    if stale:
+        stage["stale_reference_variant"] = [{k: v for k, v in x.items() if k != "tail"} for x in stale]
+        for x in stale:
+            if x["violated"] != x["invariant"] or "Restore" not in x["counterexample_actions"] or x["counterexample_actions"][-1:] != ["Tick"]:
+                raise vlib.Inconclusive("ExpiryMC/Expiry_stale.cfg (the design with the sweep reading the server object of process start) did not "
+                                        "violate %s by a Restore followed by a sweep (design specification, not a verdict on the code): %s\n%s" % (
+                                            x["invariant"], x["violated"], x["tail"]))
+            ctx.add("expiry_tlc_runs")
     if zero_by_cfg:
         never = set.intersection(*zero_by_cfg.values())
         stage["coverage_never_taken_in_any_cfg"] = sorted(never)
@@ -251,8 +325,17 @@ def report(ctx, replay=None):
             # on the smallest recording (cheapest): usually config1
             r0 = min((r for r, _ in futs), key=lambda r: os.path.getsize(os.path.join(r["out"], "trace.ndjson")))
             st_future = ex.submit(selftest, ctx, os.path.join(r0["out"], "trace.ndjson"), os.path.join(r0["out"], "aux.ndjson"))
+        sr_future = None
+        rr = [r for r, _ in futs if r["sc"]["name"].startswith("restored-")]
+        if rr and not replay:
+            sr_future = ex.submit(selftest_restore, ctx, os.path.join(rr[0]["out"], "trace.ndjson"), os.path.join(rr[0]["out"], "aux.ndjson"))
         for r, f in futs:
             vals.append((r, f.result()))
+        if sr_future:
+            stage["binding_selftest_restore"] = sr_future.result()
+            ctx.cov["binding_selftest_expiry_restore"] = stage["binding_selftest_restore"]
+            if any(not str(o).startswith(("rejected", "skipped")) for o in stage["binding_selftest_restore"].values()):
+                raise vlib.Inconclusive("expiry stage: the restore self-test failed: %s" % stage["binding_selftest_restore"])
         if st_future:
             stage["binding_selftest"] = st_future.result()
             ctx.cov["binding_selftest_expiry"] = stage["binding_selftest"]
@@ -263,6 +346,7 @@ def report(ctx, replay=None):
                 raise vlib.Inconclusive("expiry stage: the binding self-test accepted a corrupted recording: %s" % stage["binding_selftest"])
 
     undecided = []
+    unestablished = []
     witnesses = {"sweep_entries": 0, "sessions_swept": 0, "proposers": set(), "sweep_log_lines": 0, "stream_lines": 0, "entries": 0}
     for r, v in vals:
         sc, res = r["sc"], r["result"]
@@ -285,6 +369,17 @@ def report(ctx, replay=None):
                                    "sweep_entries": [{"index": x["i"], "session": x["s"], "text": x["text"], "proposed_by_node": x["by"], "ts_ms": x["ts"]} for x in sweeps],
                                    "sessions": res.get("sessions"), "notes": res.get("notes"), "unmet": res.get("unmet"),
                                    "conforming": v["conforming"], "tlc_distinct": v["tlc"].distinct})
+        # notes that are neither drift nor verdicts: the witness of the restored-leader situation, diagnoses of violations
+        diags = [(w[5:], pos) for w, pos in v["notes"] if w.startswith("DIAG ")]
+        wit = [pos for w, pos in v["notes"] if w.startswith("WITNESS ")]
+        if sc["name"].startswith("restored-"):
+            n_after = wit[0] if wit else 0
+            stage["scenarios"][-1]["restored_node"] = res.get("restored_node")
+            stage["scenarios"][-1]["sweep_entries_by_the_restored_node_after_its_restore"] = n_after
+            witnesses["sweep_entries_after_a_runtime_restore"] = witnesses.get("sweep_entries_after_a_runtime_restore", 0) + n_after
+            if n_after == 0 and not v["viol"]:
+                unestablished.append("%s: node %s restored at run time and took office, but no sweep entry of it was recorded" % (
+                    sc["name"], res.get("restored_node")))
         replay_obj = {"scenario": {"name": sc["name"], "exp": sc["exp"], "seed": sc["seed"]},
                       "how": "./check C17 --replay <this file> runs this scenario again on real binaries (harness/expiry) and validates it",
                       "orchestrator_notes": res.get("notes")}
@@ -305,6 +400,11 @@ def report(ctx, replay=None):
                 detail = ": session %s (created at index %d), last activity + expiration long past at the end of the scenario" % (sess.get(pos, "?"), pos)
             elif base == "FollowersNeverPropose":
                 detail = " (%s, time/record %d)" % (name.split(":")[-1], pos)
+            if base in ("OnlyIdleExpire", "ActiveNeverExpires", "IdleEventuallyExpires"):
+                # a diagnosis is attached to the record (sweep entry) or the session the violation names
+                hint = sorted({w for w, p in diags if p == pos and (base == "IdleEventuallyExpires") == w.startswith("the overdue session")})
+                if hint:
+                    detail += " [diagnosis: %s]" % "; ".join(hint)
             sig = "expiry:%s:%s" % (name, sc["name"].split("-")[0].rstrip("13"))
             what = "%s false on real robustirc binaries (%s, %d node(s), SessionExpiration %d ms): %s%s" % (
                 base, sc["name"], res.get("nodes") or 0, sc["exp"], PREDICATES.get(base, ""), detail)
@@ -312,6 +412,8 @@ def report(ctx, replay=None):
                 ctx.violation(sig, what, dict(replay_obj, predicate=name, record=rec,
                                               sweep_entries=[x for x in recs if x["ev"] == "entry" and x["k"] == "delete"][:8]))
         for what, pos in v["notes"]:
+            if what.startswith("DIAG ") or what.startswith("WITNESS "):
+                continue
             if what.startswith("UNDECIDED"):
                 undecided.append("%s: session created at index %d still alive long after it was due, but no leader was observed in office all the time" % (sc["name"], pos))
             else:
@@ -329,6 +431,9 @@ def report(ctx, replay=None):
     stage["witnesses"] = witnesses
     stage["wall_s"] = round(time.time() - t0, 1)
     ctx.cov["expiry_stage"] = stage
+    ctx.assumptions.append("expiry stage, restored-leader: raft.Config.TrailingLogs is set from the environment (overlay, one line in main(), as in C05; "
+                           "the default of 10240 would never compact the raft log in a short run, so raft would never send InstallSnapshot); that the "
+                           "follower really restored at run time is read from its own hook trace (fsm.restored after its last fsm.apply)")
     ctx.assumptions.append("expiry stage: entry timestamps and the orchestrator's times come from one clock (same machine; a run whose wall and "
                            "monotonic clocks disagree is discarded); hashicorp/raft elects and commits as specified; the leader's applied state at a "
                            "tick is a prefix of the log; 'the sweep ran on node n' is read from n's own log line 'Expiring session'")
@@ -337,6 +442,8 @@ def report(ctx, replay=None):
         raise vlib.Inconclusive("expiry stage: scenario(s) did not complete: " + why)
     if undecided:
         raise vlib.Inconclusive("expiry stage: " + "; ".join(undecided))
+    if unestablished and not ctx.violations:
+        raise vlib.Inconclusive("expiry stage: the situation could not be established: " + "; ".join(unestablished))
     if not replay and not ctx.violations and witnesses["sweep_entries"] == 0:
         raise vlib.Inconclusive("expiry stage: no sweep entry was observed in any scenario and no predicate failed")
     return stage
